@@ -260,6 +260,8 @@ def run(m, tier):
     results.append(guard_rules.guarded_use_rule(m, "C08.R9"))
     results.append(r10_fallback_width(m))
     results.append(r12_stray_end(m, blocks))
+    from rules import order_rules
+    results.append(order_rules.eof_probe_rule(m, "C08.R13"))
     expl = ("Decides the structural clauses of C08: the table of block constructs extracted from every "
             "BlockBase.match call site agrees with the Fortran 2003/2008 rules (opening/END pair, name and label "
             "comparison flags), every END statement class names its keyword and refuses a bare END where the standard "
